@@ -21,7 +21,7 @@ def sh(cmd, cwd=None, timeout=3600):
 def main():
     only = sys.argv[1:]
     ids = sorted(d for d in os.listdir(os.path.join(VERIF, "seeded"))
-                 if os.path.isdir(os.path.join(VERIF, "seeded", d)))
+                 if os.path.isfile(os.path.join(VERIF, "seeded", d, "meta.json")))
     if only:
         ids = [i for i in ids if i in only or i.split("-")[0] in only]
     results = {}
@@ -69,11 +69,43 @@ def main():
              "|---|---|---|---|---|---|"]
     for sid in sorted(results):
         r = results[sid]
-        by = "proof obligation + correspondence" if r.get("proof_stage_broken") else "correspondence"
+        if r.get("proof_stage_broken") and r.get("correspondence_mismatches"):
+            by = "proof obligation + correspondence"
+        elif r.get("proof_stage_broken"):
+            by = "proof obligation"
+        else:
+            by = "correspondence"
         lines.append("| %s | %s | %s | %s | %s | %s |" % (
             sid, r["property"], "yes" if r.get("detected") else "NO", by,
             "yes" if r.get("failing_input_found") else "no",
             (r.get("failing_input_clause") or "").replace("|", "/")[:140]))
+    # behaviour-preserving rewrites: every check must stay quiet
+    hdir = os.path.join(VERIF, "seeded", "harmless")
+    harmless = {}
+    if not only and os.path.isdir(hdir):
+        man = json.load(open(os.path.join(VERIF, "MANIFEST.json")))
+        pids = sorted(c["property_id"] for c in man["checks"])
+        for f in sorted(os.listdir(hdir)):
+            if not f.endswith(".diff"):
+                continue
+            rc, out = sh(["git", "-C", REPO, "apply", os.path.join(hdir, f)])
+            if rc:
+                harmless[f] = {"error": "patch does not apply"}
+                continue
+            alarms = []
+            try:
+                for pid in pids:
+                    rc, out = sh([os.path.join(VERIF, "check"), pid], cwd=VERIF)
+                    if rc != 0:
+                        alarms.append(pid)
+            finally:
+                sh(["git", "-C", REPO, "checkout", "--", "."])
+            harmless[f] = {"checks_run": len(pids), "alarms": alarms}
+            print("harmless", f, harmless[f])
+        lines += ["", "| behaviour-preserving rewrite | checks run | alarms |", "|---|---|---|"]
+        for f, r in harmless.items():
+            lines.append("| %s | %s | %s |" % (f, r.get("checks_run"), ", ".join(r.get("alarms", [])) or "none"))
+        json.dump(harmless, open(os.path.join(VERIF, "seeded", "HARMLESS.json"), "w"), indent=1)
     open(os.path.join(VERIF, "seeded", "RESULTS.md"), "w").write("\n".join(lines) + "\n")
     return 0
 
